@@ -403,6 +403,10 @@ fn comparable(m: &crate::rsproj::RModule) -> Vec<String> {
             let mut x = i.clone();
             x.attrs.derives.clear();
             x.attrs.other.clear();
+            // rustc's pretty printer writes a closure body as a block: || { e }  for  || e
+            if x.expr.starts_with("LazyLock::new(||{") && x.expr.ends_with("})") {
+                x.expr = format!("LazyLock::new(||{})", &x.expr["LazyLock::new(||{".len()..x.expr.len() - 2]);
+            }
             serde_json::to_string(&x).unwrap()
         }).collect()
 }
@@ -416,7 +420,8 @@ pub fn macro_cmp(args: &[String]) -> i32 {
         let bin = it["bin"].as_str().unwrap();
         let expanded = fs::read_to_string(format!("{dir}/{bin}.expanded")).ok();
         let failed = fs::read_to_string(format!("{dir}/{bin}.failed")).ok();
-        let mut ev = json!({"ev": "macro", "case": i, "form": it["form"], "lib_status": it["lib_status"], "expands": expanded.is_some(), "same_items": false,
+        let derive = std::path::Path::new(&format!("{dir}/{bin}.derive")).exists();
+        let mut ev = json!({"ev": "macro", "case": i, "form": it["form"], "lib_status": it["lib_status"], "expands": expanded.is_some() || derive, "comparable": !derive, "same_items": false,
                             "detail": "", "asn": it["snippet"].as_str().unwrap().chars().take(600).collect::<String>()});
         match expanded {
             Some(x) => {
